@@ -156,11 +156,6 @@ func (s *sweep) check(q httpReq, resp httpResp) {
 	switch {
 	case resp.Code >= 500 || resp.Code < 0:
 		tag := fmt.Sprintf("[5xx:%s:%s:%s]", q.Route, q.Class, causeSlug(resp.Err))
-		if q.Route == "v1.createTransaction" && (strings.Contains(q.Class, "vars_type") || v1BodyHasBadVar(q.Body)) && len(resp.Body) == 0 {
-			tag = "[v1-script-vars-panic]"
-		} else if q.Route == "v2.importLogs" {
-			tag = "[import-malformed-5xx]"
-		}
 		viol("server error for client input: " + desc + " " + tag)
 	case resp.Code >= 400:
 		if q.Route == "v2.bulk" && bulkErrorBody(resp.Body) {
@@ -241,24 +236,6 @@ func bulkErrorBody(b []byte) bool {
 	}
 	for _, e := range r.Data {
 		if e.ErrorCode != "" {
-			return true
-		}
-	}
-	return false
-}
-
-func v1BodyHasBadVar(body string) bool {
-	var b struct {
-		Script struct {
-			Vars map[string]json.RawMessage `json:"vars"`
-		} `json:"script"`
-	}
-	if json.Unmarshal([]byte(body), &b) != nil {
-		return false
-	}
-	for _, v := range b.Script.Vars {
-		t := strings.TrimSpace(string(v))
-		if t != "" && t != "null" && t[0] != '"' && t[0] != '{' {
 			return true
 		}
 	}
